@@ -6,7 +6,7 @@ from os.path import join as pjoin
 
 from ..const import EBD_PATH
 
-incrementals_unfinalized = ("USE",)
+incrementals_unfinalized = ("USE", "ACCEPT_LICENSE")
 
 metadata_keys = (
     "BDEPEND",
